@@ -8,4 +8,6 @@ CONSTANTS
   PreFix = FALSE
   CoarseCancel = TRUE
   Modes = {"none", "nowait", "wait"}
+  Modes2 = {"none"}
+  NeverExits = {}
 PROPERTIES ResultEventually WaitReturns ShutdownReturns Termination
